@@ -384,8 +384,8 @@ def check(b, method):
 
 
 
-def size_hint_check(b):
-    """f3, decided semantically: in each of the four entry configurations size_hint must be (T, Some(T)) with
+def size_hint_check(b, plain=False):
+    """f3, decided semantically (plain=True: a method returning the bare count, i.e. ExactSizeIterator::len / Iterator::count): in each of the four entry configurations size_hint must be (T, Some(T)) with
     T = f + m*C + b the number of remaining elements"""
     results = []
     for front_some in (False, True):
@@ -408,6 +408,8 @@ def size_hint_check(b):
                     results.append((False, cfg, "panics")); continue
                 ret = oc[1]
                 ok = isinstance(ret, Tup) and len(ret.f) == 2 and isinstance(ret.f[0], Poly) and ret.f[0] == T and isinstance(ret.f[1], Adt) and ret.f[1].variant == "Some" and ret.f[1].f[0] == T
+                if plain:
+                    ok = isinstance(ret, Poly) and ret == T
                 results.append((ok, cfg, "returns %r, remaining elements %r" % (ret, T)))
     return results
 
@@ -471,5 +473,20 @@ def r_flatseq(f):
                     R.fail(b.ident, "f3:%s:%s" % (r[1], r[2][:80]), "%s: for entry state %s it %s" % (b.ident, r[1], r[2]), b.where())
         except (KeyError, IndexError, TypeError, AttributeError, RecursionError) as e:
             R.inconc(b.ident, "engine error %s: %r" % (type(e).__name__, e))
+    # overrides that return the bare number of remaining elements
+    for b in f.fn_bodies:
+        if b.self_head == "FlattenExact" and b.impl_trait and ((b.name == "len" and b.trait_head == "ExactSizeIterator") or (b.name == "count" and b.trait_head == "Iterator")):
+            try:
+                res = size_hint_check(b.d, plain=True)
+                bad = [r for r in res if r[0] is False]
+                und = [r for r in res if r[0] is None]
+                if und and not bad:
+                    R.inconc(b.ident, "; ".join(r[2] for r in und)[:300])
+                else:
+                    R.inst(b.ident, "f3 %s equals the number of remaining elements f + m*C + b in all 4 entry configurations" % b.name, not bad)
+                    for r in bad:
+                        R.fail(b.ident, "f3:%s:%s" % (r[1], r[2][:80]), "%s: for entry state %s it %s" % (b.ident, r[1], r[2]), b.where())
+            except (KeyError, IndexError, TypeError, AttributeError, RecursionError) as e:
+                R.inconc(b.ident, "engine error %s: %r" % (type(e).__name__, e))
     R.require_floor(nfun, 2, "FlattenExact stepping functions")
     return R, npaths
